@@ -10,4 +10,7 @@ PROPS = {
     "C15": dict(gen=["G_datagen"], runners=["R_C15"], harness="c15",
                 assumptions=["jnp.take(table, idx, axis=0) gathers rows; tree_map applies it to every observed parameter",
                              "the index vector is shuffled by the cursor machine of C09 (same regenerated definitions)"]),
+    "C16": dict(gen=["G_rar", "G_datagen"], runners=["R_C16"], harness="c16",
+                assumptions=["lax.dynamic_update_slice clamps its start; lax.fori_loop(lo, hi, f, x) iterates lo..hi-1; p.at[:k].set",
+                             "jnp.count_nonzero(p == 0) counts the inactive slots (model: the false entries of the mask)"]),
 }
